@@ -105,7 +105,11 @@ pub fn check<K: Kmer + Send + Sync>(c: &Case) -> CheckResult {
         if it.len() != total || it.size_hint() != (total, Some(total)) {
             return Err(format!("fresh iterator reports len {} / size_hint {:?}, node has {} k-mers", it.len(), it.size_hint(), total));
         }
-        let all: Vec<Seq> = graph.get_node_kmer(ni).into_iter().map(|x| kseq(&x)).collect();
+        // bounded: an endless stream must be reported, not exhaust memory
+        let all: Vec<Seq> = graph.get_node_kmer(ni).into_iter().take(total + 8).map(|x| kseq(&x)).collect();
+        if all.len() > total {
+            return Err(format!("plain iteration of node {} does not stop after its {} k-mers (endless stream?)", ni, total));
+        }
         if all != list {
             return Err(format!("plain iteration of node {} yields {} k-mers, expected the node's {} k-mers in order", ni, all.len(), total));
         }
@@ -200,7 +204,7 @@ pub fn check<K: Kmer + Send + Sync>(c: &Case) -> CheckResult {
         }
     } else {
         // drain and compare the tail
-        let rest: Vec<Seq> = it.map(|x| kseq(&x)).collect();
+        let rest: Vec<Seq> = it.take(total + 8).map(|x| kseq(&x)).collect();
         if rest[..] != list[cur..] {
             return Err(format!("draining after the call history yields {} k-mers, expected {}", rest.len(), total - cur));
         }
@@ -232,7 +236,7 @@ fn check_graph<K: Kmer + Send + Sync>(c: &GCase) -> CheckResult {
         if it.len() != want.len() {
             return Err(format!("node {}: iterator len {} but the node has {} k-mers", id, it.len(), want.len()));
         }
-        let got: Vec<Seq> = it.map(|x| kseq(&x)).collect();
+        let got: Vec<Seq> = it.take(want.len() + 8).map(|x| kseq(&x)).collect();
         if got != want {
             return Err(format!("node {}: iteration differs from the node's k-mers", id));
         }
